@@ -518,4 +518,91 @@ def run(tier):
                          "suite may be a SHA-384 suite (RFC 8446 4.4.1)" % (ln, path[-1][1]), file=psh.relfile, line=path[-1][1])
         res.instance("C10.R5", "tls13ParseServerHello: HelloRetryRequest (line %s) -> ssl->cipher assigned before it is reported" % ln,
                      path is None, finding=f_)
+    rule_R6(res, prog)
     return res.finish()
+
+
+def rule_R6(res, prog):
+    """RFC 8446 5.1: legacy_record_version is 0x0303 on every record a TLS 1.3 implementation writes, except that the
+    record carrying an *initial* ClientHello (not one answering a HelloRetryRequest) may say 0x0301.  In
+    tls13WriteRecordHeader the 2nd and 3rd byte appended to each record buffer (the one whose 1st byte is the record
+    type) are evaluated on every path."""
+    from sa import cfgutil as cu
+    rid = "C10.R6"
+    res.rule(rid, "TLS 1.3 record header: legacy_record_version is 0x0303 (0x0301 only for an initial ClientHello)")
+    fn = prog.fn("tls13WriteRecordHeader")
+    CH = prog.const("SSL_HS_CLIENT_HELLO")
+    APPDATA = prog.const("SSL_RECORD_TYPE_APPLICATION_DATA")
+    gf = cu.guard_facts(fn)
+
+    def buf_of(call):
+        a = strip(call["a"][0]) if call.get("a") else None
+        if a is not None and a.get("k") == "un" and a["op"] == "&":
+            v = strip(a["e"])
+            if v is not None and v.get("k") == "var":
+                return v.get("id")
+        return None
+    inits = cu.find_sites(fn, lambda n: n.get("k") == "call" and n.get("fn") == "psDynBufInit" and len(n.get("a", [])) >= 2)
+    n = 0
+    for (bid0, idx0, ln0, init) in inits:
+        a = strip(init["a"][1])
+        bufid = None
+        if a is not None and a.get("k") == "un" and a["op"] == "&":
+            bufid = (strip(a["e"]) or {}).get("id")
+        if bufid is None:
+            continue
+        seen = set()
+        stack = [(bid0, idx0, 0, None)]
+        found = []          # (position, line, arg node, block id, first-append arg)
+        while stack:
+            bid, after, cnt, first = stack.pop()
+            if (bid, after, cnt) in seen:
+                continue
+            seen.add((bid, after, cnt))
+            b = fn.bmap[bid]
+            started = after is None
+            stop = False
+            for i, ln, x in cu.block_exprs(b):
+                if not started:
+                    if i == after:
+                        started = True
+                    continue
+                for m in walk(x):
+                    if m.get("k") == "call" and (m.get("fn") or "").startswith("psDynBufAppend") and buf_of(m) == bufid:
+                        cnt += 1
+                        arg = strip(m["a"][1]) if len(m.get("a", [])) > 1 else None
+                        if cnt == 1:
+                            first = arg
+                        if cnt in (2, 3) and m.get("fn") == "psDynBufAppendByte":
+                            found.append((cnt, ln, arg, bid, first))
+                        if cnt >= 3:
+                            stop = True
+                if stop:
+                    break
+            if stop:
+                continue
+            for sc in b["succ"]:
+                if sc.get("b") is not None:
+                    stack.append((sc["b"], None, cnt, first))
+        for (pos, ln, arg, bid, first) in sorted(found, key=lambda t_: (t_[1], t_[0])):
+            is_rec = first is not None and ((first.get("k") == "var" and first.get("n") == "recordType") or
+                                            (first.get("k") == "int" and first["v"] == APPDATA))
+            if not is_rec:
+                continue
+            n += 1
+            ok = arg is not None and arg.get("k") == "int" and arg["v"] == 3
+            why = "byte %d of the record header is %s" % (pos, arg.get("v") if arg is not None and arg.get("k") == "int" else "not a constant")
+            if not ok and pos == 3 and arg is not None and arg.get("k") == "int" and arg["v"] == 1:
+                facts = gf.get(bid, frozenset())
+                ch = ("(handshakeMessageType == %d)" % CH, True) in facts
+                no_hrr = ("ssl->tls13IncorrectDheKeyShare", False) in facts or ("(ssl->tls13IncorrectDheKeyShare == 0)", True) in facts
+                ok = ch and no_hrr
+                why = "0x0301 written%s%s" % ("" if ch else " for a record that is not established to carry a ClientHello",
+                                              "" if no_hrr else " without excluding a ClientHello that answers a HelloRetryRequest")
+            f_ = None
+            if not ok:
+                f_ = Finding(PROP, rid, fn.name, "legacy_record_version", "%s:%s tls13WriteRecordHeader(): %s; RFC 8446 5.1 requires 0x0303 on every "
+                             "record except an initial ClientHello - a strict peer rejects the record (protocol_version)" % (fn.relfile, ln, why),
+                             file=fn.relfile, line=ln)
+            res.instance(rid, "tls13WriteRecordHeader:%s header byte %d = %s" % (ln, pos, arg.get("v") if arg is not None and arg.get("k") == "int" else "?"), ok, finding=f_)
+    res.floor(rid, 4)
